@@ -273,6 +273,19 @@ def run(ctx):
             must_raise("ModuleIdentityObject.encode", ModuleIdentityObject.encode, bad)
         for data in [b"", b"\x01\x00", bytes(14), bytes(14) + b"\x05ab"]:
             must_raise("ModuleIdentityObject.decode", ModuleIdentityObject.decode, data)
+        # the `length` argument of Array.decode (keyword and positional), on unbounded and fixed array types: it says how many elements
+        # the caller expects - fewer in the buffer is "not enough data", never a shorter list
+        for et, vals in [(p.UINT, [1, 2, 65535]), (p.DINT, [-1, 0, 7, 2 ** 31 - 1]), (p.SINT, [5]), (p.REAL, [1.5, -2.0]), (p.STRING, ["a", "", "xyz"]), (p.LINT, [2 ** 40, -3])]:
+            buf = b"".join(et.encode(v) for v in vals)
+            k = len(vals)
+            for at in (et[None], et[k], et[k + 3]):
+                lab = f"{et.__name__}[{'None' if at is et[None] else at.length}].decode(length=)"
+                must_decode(lab, lambda b_, at=at, k=k: at.decode(b_, length=k), buf, vals)
+                must_decode(lab, lambda b_, at=at, k=k: at.decode(b_, k), buf, vals)
+                if k > 1:
+                    must_decode(lab, lambda b_, at=at, k=k: at.decode(b_, length=k - 1), buf, vals[:-1])
+                must_raise(lab, lambda b_, at=at, k=k: at.decode(b_, length=k + 1), buf)
+                must_raise(lab, lambda b_, at=at, k=k: at.decode(b_, k + 2), buf)
         # the exported composite objects (identity items, revision, IP address, template attributes): EVERY truncation point of a
         # complete encoding built by hand - also the one that cuts only the final byte - is "not enough data"
         import struct as _st
